@@ -127,6 +127,12 @@ theorem honest_line_accepted (H : Node → Node) (op : VOp) (h : HonestLine H op
     obtain ⟨t, p, hp, hr⟩ := h
     rw [if_neg (by simp), hr, complete_bytes H t p _ _ hp, if_pos rfl]
 
+/-- **a junk line** (`verifyj`: the proof vector holds an element that is not a 32-byte string): the
+model's answer is a failure (the element cannot be read), on which the monitor reports nothing -/
+theorem junk_monitor_sound_line (indexed : Bool) : verdictJunk indexed ⟨some .fail, Ans.fail.line⟩ = none := by
+  unfold verdictJunk
+  simp
+
 /-- **one verifier line**: the monitor applied to the model's answer reports nothing -/
 theorem verifier_monitor_sound_line (H : Node → Node) (hH : ∀ x, (H x).length = 32) (op : VOp)
     (hwf : op.Wf) (htag : TagOk H op) : verdictVerify H op (modelVObs H op) = none := by
